@@ -234,6 +234,10 @@ for _ in range(60):
         q = SDPPacket.from_bytestring(bs)
         return "(" + ",".join(sdp_state(q)) + ")"
     add("SDPPacket_from_bytestring false 255 0 0 7 31 0 0 0 0 [] %s" % L([int(b) for b in bytearray(bs)]), exc_(hg))
+from rig.place_and_route.utils import _get_minimal_core_reservations
+for _ in range(40):
+    cs = sorted(rng.sample(range(20), rng.randint(0, 8))) if rng.random() < 0.8 else [rng.randint(0, 6) for _ in range(rng.randint(0, 6))]
+    add("get_minimal_core_reservations %s" % L(cs), show([(c.reservation.start, c.reservation.stop) for c in _get_minimal_core_reservations("cores", cs, (1, 2))]))
 def EV(evs):
     return "[" + ",".join('{name:="%s",ints:=%s,bytes:=%s}' % (n, show(i), show(b)) for n, i, b in evs) + "]"
 from rig.machine_control import boot as _boot
